@@ -5,7 +5,7 @@ import struct
 import subprocess
 
 VERIF = os.path.dirname(os.path.dirname(os.path.abspath(__file__)))
-LEAN_DIR = os.path.join(VERIF, "lean")
+LEAN_DIR = os.environ.get("GSV_LEAN") or os.path.join(VERIF, "lean")
 DRIVER_EXE = os.path.join(LEAN_DIR, ".lake", "build", "bin", "gsvdriver")
 
 
